@@ -478,6 +478,10 @@ func runC07(r *Run, verifDir string) {
 				}
 			}
 		}
+		if rejBad.IsValid() && c07MaxAlwaysPositive(p) {
+			// the constructor already turns "no limit" into a positive bound (e.g. non-positive -> math.MaxInt)
+			rejBad = token.NoPos
+		}
 		if rejBad.IsValid() {
 			r.Bad("C07.S3", "ttlv.Stream.Recv/limit-only-if-positive", rejBad, "Recv refuses a message for exceeding the maximum without having found the maximum positive: a stream created with no limit (0, or the client's -1) rejects every message")
 		} else if nRej > 0 {
@@ -965,4 +969,61 @@ func c07LatchSound(latch, needPhi *ssa.Phi, fresh ssa.Value, readNext *ssa.BinOp
 		}
 	}
 	return why
+}
+
+// c07MaxAlwaysPositive: every value ever stored into Stream.max is positive — a positive constant, or a value that a
+// dominating (or edge) test found > 0. Then "no limit" has been normalised away where the stream is built and Recv
+// may compare unconditionally.
+func c07MaxAlwaysPositive(p *Program) bool {
+	n := 0
+	okAll := true
+	var positive func(v ssa.Value, conds []domCond, d int) bool
+	positive = func(v ssa.Value, conds []domCond, d int) bool {
+		if d > 4 {
+			return false
+		}
+		if k, ok := constIntVal(v); ok {
+			return k > 0
+		}
+		for _, dc := range conds {
+			bo, ok := dc.cond.(*ssa.BinOp)
+			if !ok || !dc.outcome || bo.X != v {
+				continue
+			}
+			if k, isK := constIntVal(bo.Y); isK && ((bo.Op == token.GTR && k >= 0) || (bo.Op == token.GEQ && k >= 1)) {
+				return true
+			}
+		}
+		if ph, ok := v.(*ssa.Phi); ok {
+			for i, e := range ph.Edges {
+				pr := ph.Block().Preds[i]
+				cs := dominatingConds(pr)
+				if cnd, isTrue, ok := edgeTaken(pr, ph.Block()); ok {
+					cs = append(cs, withNilTestsNormalised([]domCond{{cnd, isTrue, pr}})...)
+				}
+				if !positive(e, cs, d+1) {
+					return false
+				}
+			}
+			return true
+		}
+		return false
+	}
+	for _, fn := range pkgFuncs(p, "ttlv") {
+		allInstrs(fn, func(in ssa.Instruction) {
+			st, ok := in.(*ssa.Store)
+			if !ok {
+				return
+			}
+			fa, ok := st.Addr.(*ssa.FieldAddr)
+			if !ok || typeName(derefType(fa.X.Type())) != "Stream" || fname(derefStruct(fa.X.Type()).Field(fa.Field)) != "max" {
+				return
+			}
+			n++
+			if !positive(st.Val, dominatingConds(st.Block()), 0) {
+				okAll = false
+			}
+		})
+	}
+	return n > 0 && okAll
 }
